@@ -6,12 +6,16 @@
   The relation captures the grammar's freedom as the reference writer harness/src/spell.rs exercises it on every
   run and as property C04 lists it:
     * blanks (space, tab) wherever the grammar allows them: after `[` `{` `,` `:` and before `,` `]` `}`, inside
-      `C( , )` and `Type( )`, after the `,` of a column or cell separator; tags of a dict are separated by a space
-      (then blanks) or, inside `{}`, by a comma with blanks around it;
-    * line endings LF or CRLF, each line on its own (a lone CR, which the reference writer and the library's reader
-      also know, is NOT in the relation: CR LF would then be two line endings or one);
+      `C( , )` and `Type( )`, after the `,` of a column or cell separator; tags of a dict are separated by blanks
+      (at least one space or tab) or, inside `{}`, by a comma with blanks around it;
+    * line endings LF, CRLF or a lone CR, each line on its own, blanks allowed before every line ending (the only
+      restriction: where a document may end with one more line ending, a lone CR directly followed by LF is the
+      CRLF spelling, not two line endings);
+    * blanks before a document; blanks and further line endings after it;
     * Str / Uri characters: raw (UTF-8) when legal, by their short escape, or as `\uXXXX` with upper- or
-      lower-case hex digits (any character of the Basic Multilingual Plane);
+      lower-case hex digits (any character of the Basic Multilingual Plane); the Uri escapes are the library
+      reader's full table: `` \` `` `\\` `\[ \] \@ \& \= \;` denote the character, `\: \/ \? \#` are kept verbatim
+      (they denote the two characters backslash + `:` …; Haxall keeps the backslash for all of them);
     * number spellings: sign, fraction, exponent (`e`/`E`, optional sign), `_` after any digit of a digit run;
     * a trailing comma in a non-empty list; a Marker tag with or without `:M`;
     * grid layout: meta on the `ver` line, column meta, empty cells for missing values, nested grids in
@@ -37,6 +41,14 @@ def Blanks (ws : List UInt8) : Prop := ∀ b ∈ ws, b = 32 ∨ b = 9
 inductive Nl : List UInt8 → Prop
   | lf : Nl [10]
   | crlf : Nl [13, 10]
+  | cr : Nl [13]
+
+/-- blanks and line endings in any order -/
+def White (ws : List UInt8) : Prop := ∀ b ∈ ws, b = 32 ∨ b = 9 ∨ b = 13 ∨ b = 10
+
+/-- what may follow a document that is not a grid: blanks and line endings, but not one single blank alone
+(the library reads that too; it is left out because the scanner's end-of-input flag is raised one byte early) -/
+def Trailer (ws : List UInt8) : Prop := White ws ∧ ∀ b, ws = [b] → b = 13 ∨ b = 10
 
 /-- the characters of an ASCII byte string -/
 def chars (bs : List UInt8) : List Char := bs.map (fun b => Char.ofNat b.toNat)
@@ -78,18 +90,27 @@ inductive StrBody : List Char → List UInt8 → Prop
 inductive Quoted : List Char → List UInt8 → Prop
   | mk (s : List Char) (body : List UInt8) (h : StrBody s body) : Quoted s (34 :: (body ++ [34]))
 
-/-- one character of a Uri -/
+/-- one character of a Uri: the reader's full escape table. Raw text, `` \` ``, `\\`, `\[ \] \@ \& \= \;`
+(each denotes the character after the backslash) and `\uXXXX`. The four escapes `\: \/ \? \#` are NOT
+here: the library keeps them verbatim, so they denote two characters (see `UriBody.keep`). -/
 inductive UriCh : Char → List UInt8 → Prop
   /-- raw: anything from U+0020 on except `` ` `` and `\` -/
   | raw (c : Char) (h : 32 ≤ c.toNat) (h1 : c ≠ '`') (h2 : c ≠ '\\') : UriCh c (encChar c)
   | bquote : UriCh '`' [92, 96]
   | bslash : UriCh '\\' [92, 92]
+  /-- `\[ \] \@ \& \= \;`: the character itself -/
+  | punct (c : Char) (b : UInt8)
+      (h : (c, b) ∈ [('[', (91 : UInt8)), (']', 93), ('@', 64), ('&', 38), ('=', 61), (';', 59)]) : UriCh c [92, b]
   | u (c : Char) (bs : List UInt8) (h : UEsc c bs) : UriCh c bs
 
 inductive UriBody : List Char → List UInt8 → Prop
   | nil : UriBody [] []
   | cons (c : Char) (cs : List Char) (bs bs' : List UInt8) (h : UriCh c bs) (t : UriBody cs bs') :
       UriBody (c :: cs) (bs ++ bs')
+  /-- `\: \/ \? \#`: the library keeps these escapes verbatim — the text denotes the TWO characters `\` and
+  `:` (resp. `/ ? #`) -/
+  | keep (c : Char) (b : UInt8) (h : (c, b) ∈ [(':', (58 : UInt8)), ('/', 47), ('?', 63), ('#', 35)])
+      (cs : List Char) (bs' : List UInt8) (t : UriBody cs bs') : UriBody ('\\' :: c :: cs) (92 :: b :: bs')
 
 /-! ### numbers -/
 
@@ -197,9 +218,9 @@ inductive Spells : Val → List UInt8 → Prop
   /-- `{` tags `}` -/
   | dict (d : Tags) (w1 body w2 : List UInt8) (h1 : Blanks w1) (h : SpTags true d body) (h2 : Blanks w2) :
       Spells (.dict d) (123 :: (w1 ++ body ++ w2 ++ [125]))
-  /-- `<<` newline grid `>>` -/
-  | grid (md : OTags) (cols : Cols) (rows : Rows) (ver : List Char) (nl body : List UInt8) (hn : Nl nl)
-      (h : SpGrid md cols rows ver body) : Spells (.grid md cols rows ver) (60 :: 60 :: (nl ++ body ++ [62, 62]))
+  /-- `<<` blanks newline grid `>>` -/
+  | grid (md : OTags) (cols : Cols) (rows : Rows) (ver : List Char) (w nl body : List UInt8) (hw : Blanks w) (hn : Nl nl)
+      (h : SpGrid md cols rows ver body) : Spells (.grid md cols rows ver) (60 :: 60 :: (w ++ nl ++ body ++ [62, 62]))
 
 /-- list items: `v (, v)* [,]`, blanks after each value and after each comma -/
 inductive SpItems : Vals → List UInt8 → Prop
@@ -217,21 +238,22 @@ inductive SpTag : List Char → Val → List UInt8 → Prop
   | val (k : List Char) (v : Val) (w bs : List UInt8) (hw : Blanks w) (h : Spells v bs) :
       SpTag k v (encChars k ++ 58 :: (w ++ bs))
 
-/-- tags separated by a space and blanks or (when `braced`) by a comma with blanks around it -/
+/-- tags separated by blanks (at least one) or (when `braced`) by a comma with blanks around it -/
 inductive SpTags : Bool → Tags → List UInt8 → Prop
   | nil (br : Bool) : SpTags br .nil []
   | one (br : Bool) (k : List Char) (v : Val) (bs : List UInt8) (h : SpTag k v bs) : SpTags br (.cons k v .nil) bs
   | space (br : Bool) (k : List Char) (v : Val) (k2 : List Char) (v2 : Val) (t : Tags) (bs w rest : List UInt8)
-      (h : SpTag k v bs) (hw : Blanks w) (ht : SpTags br (.cons k2 v2 t) rest) :
-      SpTags br (.cons k v (.cons k2 v2 t)) (bs ++ 32 :: (w ++ rest))
+      (h : SpTag k v bs) (hw : Blanks w) (hne : w ≠ []) (ht : SpTags br (.cons k2 v2 t) rest) :
+      SpTags br (.cons k v (.cons k2 v2 t)) (bs ++ (w ++ rest))
   | comma (k : List Char) (v : Val) (k2 : List Char) (v2 : Val) (t : Tags) (bs w w' rest : List UInt8)
       (h : SpTag k v bs) (hw : Blanks w) (hw' : Blanks w') (ht : SpTags true (.cons k2 v2 t) rest) :
       SpTags true (.cons k v (.cons k2 v2 t)) (bs ++ w ++ 44 :: (w' ++ rest))
 
-/-- grid meta / column meta: nothing, or a space and the tags -/
+/-- grid meta / column meta: nothing, or blanks (at least one) and the tags -/
 inductive SpMeta : OTags → List UInt8 → Prop
   | none : SpMeta .none []
-  | some (t : Tags) (body : List UInt8) (h : SpTags false t body) : SpMeta (.some t) (32 :: body)
+  | some (t : Tags) (w body : List UInt8) (hw : Blanks w) (hne : w ≠ []) (h : SpTags false t body) :
+      SpMeta (.some t) (w ++ body)
 
 /-- the column line without its line ending: `name [meta] ("," blanks name [meta])*` -/
 inductive SpCols : Cols → List UInt8 → Prop
@@ -246,27 +268,32 @@ inductive SpCells : Tags → List (List Char × List UInt8) → Prop
   | cons (k : List Char) (v : Val) (t : Tags) (bs : List UInt8) (cells : List (List Char × List UInt8))
       (h : Spells v bs) (ht : SpCells t cells) : SpCells (.cons k v t) ((k, bs) :: cells)
 
-/-- all rows, one line each: cells in column order separated by `,` and blanks -/
+/-- all rows, one line each: cells in column order separated by `,` and blanks; blanks before the line ending -/
 inductive SpRows : List (List Char) → Rows → List UInt8 → Prop
   | nil (names : List (List Char)) : SpRows names .nil []
   | cons (names : List (List Char)) (r : Tags) (rs : Rows) (cells : List (List Char × List UInt8))
-      (line nl rest : List UInt8) (hc : SpCells r cells) (hl : RowLine cells names line) (hn : Nl nl)
-      (t : SpRows names rs rest) : SpRows names (.cons r rs) (line ++ nl ++ rest)
+      (line w nl rest : List UInt8) (hc : SpCells r cells) (hl : RowLine cells names line) (hw : Blanks w) (hn : Nl nl)
+      (t : SpRows names rs rest) : SpRows names (.cons r rs) (line ++ w ++ nl ++ rest)
 
-/-- `ver:"3.0"` [meta] newline columns newline rows -/
+/-- `ver:"3.0"` [meta] newline columns newline rows; blanks before each line ending -/
 inductive SpGrid : OTags → Cols → Rows → List Char → List UInt8 → Prop
-  | mk (md : OTags) (cols : Cols) (rows : Rows) (ver : List Char) (m nl1 cl nl2 rw : List UInt8)
-      (hm : SpMeta md m) (hn1 : Nl nl1) (hc : SpCols cols cl) (hn2 : Nl nl2) (hr : SpRows cols.names rows rw) :
-      SpGrid md cols rows ver ([118, 101, 114, 58, 34, 51, 46, 48, 34] ++ m ++ nl1 ++ cl ++ nl2 ++ rw)
+  | mk (md : OTags) (cols : Cols) (rows : Rows) (ver : List Char) (m w1 nl1 cl w2 nl2 rw : List UInt8)
+      (hm : SpMeta md m) (hw1 : Blanks w1) (hn1 : Nl nl1) (hc : SpCols cols cl) (hw2 : Blanks w2) (hn2 : Nl nl2)
+      (hr : SpRows cols.names rows rw) :
+      SpGrid md cols rows ver ([118, 101, 114, 58, 34, 51, 46, 48, 34] ++ m ++ w1 ++ nl1 ++ cl ++ w2 ++ nl2 ++ rw)
 end
 
-/-- a whole document: a grid is written without `<<` `>>` and may be followed by one blank line -/
+/-- a whole document, blanks before it: a grid is written without `<<` `>>` and may be followed by further (blank)
+lines; any other value may be followed by blanks and line endings -/
 inductive SpellsTop : Val → List UInt8 → Prop
-  | grid (md : OTags) (cols : Cols) (rows : Rows) (ver : List Char) (body : List UInt8)
-      (h : SpGrid md cols rows ver body) : SpellsTop (.grid md cols rows ver) body
-  | gridNl (md : OTags) (cols : Cols) (rows : Rows) (ver : List Char) (body nl : List UInt8)
-      (h : SpGrid md cols rows ver body) (hn : Nl nl) : SpellsTop (.grid md cols rows ver) (body ++ nl)
-  | other (v : Val) (bs : List UInt8) (hv : ∀ md cols rows ver, v ≠ .grid md cols rows ver) (h : Spells v bs) :
-      SpellsTop v bs
+  | grid (md : OTags) (cols : Cols) (rows : Rows) (ver : List Char) (lead body : List UInt8) (hl : Blanks lead)
+      (h : SpGrid md cols rows ver body) : SpellsTop (.grid md cols rows ver) (lead ++ body)
+  /-- a lone CR that ends the grid's last line, directly followed by LF, is the CRLF line ending: not this case -/
+  | gridNl (md : OTags) (cols : Cols) (rows : Rows) (ver : List Char) (lead body w nl trail : List UInt8)
+      (hl : Blanks lead) (h : SpGrid md cols rows ver body) (hw : Blanks w) (hn : Nl nl) (ht : White trail)
+      (hcr : w = [] → nl = [10] → body.getLast? ≠ some 13) :
+      SpellsTop (.grid md cols rows ver) (lead ++ body ++ w ++ nl ++ trail)
+  | other (v : Val) (lead bs trail : List UInt8) (hv : ∀ md cols rows ver, v ≠ .grid md cols rows ver)
+      (hl : Blanks lead) (h : Spells v bs) (ht : Trailer trail) : SpellsTop v (lead ++ bs ++ trail)
 
 end Hs.Spell
